@@ -1,5 +1,6 @@
 // Correspondence harness for C19: the real BigInt<Number_T, Width_T> and DoubleSize helpers.
-//   bigseq <W> <n> <op>*      operation sequence on a fresh heap-allocated object (exact-size block);
+//   bigseq <W> <n> <op>*      operation sequence on a fresh heap-allocated object (exact-size block) and a
+//                             second one for copy / move assignment (sv: t = x, ld: x = t, mv: x = move(t));
 //                             one token `idx/words/ret` per step, `pre` when the step's precondition
 //                             fails (zero divisor, bit scan of a zero word, operand wider than the
 //                             storage) and the step is skipped; a last token `S<checked>.<bad>` is the
@@ -111,6 +112,10 @@ static std::string runSeq(const std::vector<std::string> &t) {
     if (std::to_string(n) != t[2]) return "cfg-mismatch";
     Obj<B>      holder;
     B          &x = *holder.p;
+    Obj<B>      holder2;
+    B          &y = *holder2.p; // the second object (tokens sv / ld / mv)
+    u128        sht = 0;
+    bool        shtv = true;
     std::string out;
     // shadow
     u128               sh = 0;
@@ -204,6 +209,30 @@ static std::string runSeq(const std::vector<std::string> &t) {
                 ret = show_u128(r);
                 if (shv) { shret = show_u128(sh & m); shret_known = true; }
             } else return "bad-op";
+        } else if (o == "sv" || o == "ld" || o == "mv") {
+            // the shadow follows a copy only when both objects were being followed (the target's
+            // invariant is a precondition of copy)
+            const bool both = shv && shtv;
+            if (o == "sv") { y = x; sht = sh; shtv = both; }
+            else if (o == "ld") { x = y; sh = sht; shv = both; }
+            else { x = static_cast<B &&>(y); sh = sht; shv = both; sht = 0; shtv = both; }
+            if (!out.empty()) out += ' ';
+            std::string ys = show_state(y, "_");
+            out += show_state(x, "_") + "~" + ys.substr(0, ys.size() - 2);
+            {
+                bool    ok;
+                u128    held = low128(x, ok);
+                SizeT32 top = 0;
+                for (SizeT32 i = 0; i < n; ++i) if (x.Storage()[i] != 0) top = i;
+                if (shv) { ++sh_checked; if (!ok || held != sh || top != x.Index()) ++sh_bad; }
+                else if (ok && top == x.Index()) { sh = held; shv = true; }
+                held = low128(y, ok);
+                top = 0;
+                for (SizeT32 i = 0; i < n; ++i) if (y.Storage()[i] != 0) top = i;
+                if (shtv) { ++sh_checked; if (!ok || held != sht || top != y.Index()) ++sh_bad; }
+                else if (ok && top == y.Index()) { sht = held; shtv = true; }
+            }
+            continue;
         } else {
             if (o == "ib") { ret = x.IsBig() ? "T" : "F"; if (shv) { shret = ((sh >> (W - 1U)) >> 1U) != 0 ? "T" : "F"; shret_known = true; } }
             else if (o == "nz") { ret = x.NotZero() ? "T" : "F"; if (shv) { shret = (sh != 0) ? "T" : "F"; shret_known = true; } }
